@@ -2,6 +2,7 @@ package rules
 
 import (
 	"fmt"
+	"go/token"
 	"go/types"
 	"sort"
 
@@ -138,7 +139,18 @@ func runC11(c *Ctx) {
 		subs := c.field("blockntfns", "SubscriptionManager", "subscribers")
 		okKey := 0
 		cidF := c.field("blockntfns", "cancelSubscription", "id")
-		for _, f := range c.fns(fnHandleNew, fnHandleCan) {
+		var regFns []*ssa.Function
+		seenFn := map[*ssa.Function]bool{}
+		for _, name := range []string{fnHandleNew, fnHandleCan} {
+			hs, _ := c.hostsOf(name)
+			for _, h := range hs {
+				if !seenFn[h] {
+					seenFn[h] = true
+					regFns = append(regFns, h)
+				}
+			}
+		}
+		for _, f := range regFns {
 			for _, x := range find(f, anyOf(mapUpdate(loadsField(subs)), mapDelete(loadsField(subs)))) {
 				var key ssa.Value
 				switch y := x.(type) {
@@ -271,7 +283,9 @@ func (c *Ctx) fanOutAll() {
 	// range over m.subscribers the notifySubscriber call is reached within
 	// the iteration (no subscriber is skipped), with that subscriber and the
 	// event that was received
-	all := c.fn(fnNotifyAll)
+	// notifySubscribers, or the handler it was folded into
+	alls, folded := c.hostsOf(fnNotifyAll)
+	all := alls[0]
 	var starts []start
 	ir.Instrs(all, func(in ssa.Instruction) {
 		n, ok := in.(*ssa.Next)
@@ -293,7 +307,21 @@ func (c *Ctx) fanOutAll() {
 	for _, call := range find(all, callTo(smM("notifySubscriber"))) {
 		a := ir.CallOf(call).Args
 		fromRange := ir.DerivesFrom(a[1], func(x ssa.Value) bool { _, ok := x.(*ssa.Next); return ok })
-		okArgs = fromRange && a[2] == ssa.Value(all.Params[1])
+		if !fromRange {
+			continue // (the backlog delivery to one subscriber)
+		}
+		if folded {
+			// the event is the one just received from the notification source
+			okArgs = ir.DerivesFrom(a[2], func(x ssa.Value) bool {
+				if sel, ok := x.(*ssa.Select); ok {
+					return selectHasRecv(sel, valIsCallTo(c.method("blockntfns", "NotificationSource", "Notifications")))
+				}
+				u, ok := x.(*ssa.UnOp)
+				return ok && u.Op == token.ARROW
+			})
+		} else {
+			okArgs = a[2] == ssa.Value(all.Params[1])
+		}
 	}
 	c.verdict(okArgs, c.nm(all)+" | each subscriber gets the event that was received", c.P.Pos(all.Pos()), "notifySubscriber(range element, ntfn)", "the fan-out does not pass the ranged subscriber and the received event")
 	c.whoMay("store to newSubscription.bestHeight", storeToField(ns("bestHeight")), []string{fnNewSub}, 1)
@@ -370,7 +398,11 @@ func (c *Ctx) registryOwner() {
 	sm := func(f string) *types.Var { return c.field("blockntfns", "SubscriptionManager", f) }
 	smM := func(m string) *types.Func { return c.method("blockntfns", "SubscriptionManager", m) }
 	c.whoMay("access to SubscriptionManager.subscribers", accessOf(sm("subscribers")), []string{fnHandleNew, fnHandleCan, fnNotifyAll, "blockntfns.NewSubscriptionManager", fnSMStop}, 5)
-	c.whoMay("calls of handleNewSubscription/handleCancelSubscription/notifySubscribers", callTo(smM("handleNewSubscription"), smM("handleCancelSubscription"), smM("notifySubscribers")), []string{fnSubHandler}, 3)
+	// (helpers folded into the handler no longer have calls to restrict)
+	helpers := c.methodsOpt("blockntfns", "SubscriptionManager", "handleNewSubscription", "handleCancelSubscription", "notifySubscribers")
+	if len(helpers) > 0 {
+		c.whoMay("calls of handleNewSubscription/handleCancelSubscription/notifySubscribers", callTo(helpers...), []string{fnSubHandler}, len(helpers))
+	}
 	c.whoMay("go subscriptionHandler", func(in ssa.Instruction) bool {
 		_, isGo := in.(*ssa.Go)
 		return isGo && callTo(smM("subscriptionHandler"))(in)
